@@ -115,6 +115,14 @@ def gen_cases(tier, seed):
             yield {'P': prog, 'E': [['arg', n - 1]]}
             yield {'P': prog, 'E': [['drop', 0]]}
             yield {'P': prog, 'E': [['ins', n, fn]]}
+    # the same alias called from the operation's thread and from joined worker threads (ordinals are per recording, not per thread)
+    for fn in ('out_a', 'out_static'):
+        w = {'do': 'thr', 'steps': [dict(letter(fn, 'p1'), ret='u2'), dict(letter(fn, 'mix'), ret='u3')]}
+        w2 = {'do': 'thr', 'steps': [dict(letter(fn, 'p0'), ret='u5')]}
+        for steps in ([dict(letter(fn, 'p1'), ret='u1'), w, dict(letter(fn, 'p1'), ret='u4')], [w, w2], [w, dict(letter('out_b', 'p1'), ret='u1'), w2, dict(letter(fn, 'p1'), ret='u6')]):
+            prog = {'steps': steps + [{'do': 'val', 'v': 'v1'}], 'end': 'ret'}
+            yield {'P': prog, 'E': []}
+            yield {'P': prog, 'E': [['end', 'raise:E1']]}
     # three interleaved aliases, 10+ calls in total
     mix = [letter(FNS[i % 3], 'p1') for i in range(11)]
     yield {'P': mkprog(mix), 'E': []}
